@@ -171,7 +171,7 @@ def run(ctx):
     ctx.explanation = ('Symbolic integer parameters through the real constructor and compilation under CrossHair; '
                        'concrete synthesis of every corpus design with the four strategies (UniGen in a child process).')
     import os as _os
-    _os.environ.setdefault('VERIF_ITEM_TIMEOUT', '300' if ctx.tier == 'thorough' else '15')
+    _os.environ.setdefault('VERIF_ITEM_TIMEOUT', '300' if ctx.tier == 'thorough' else '30')
     ds = designs(ctx.tier, ctx.seed) + c14.extra_designs() + c25.nest_designs(ctx.tier, ctx.seed)
     res = pmap(ctx, synth, ds)
     ctx.extra['design_outcomes'] = {str(k): res.count(k) for k in set(res)}
